@@ -5,6 +5,7 @@ and C12 (savepoint rollback)."""
 import copy
 import random
 
+import persistent
 import transaction
 from persistent.list import PersistentList
 from persistent.mapping import PersistentMapping
@@ -25,6 +26,13 @@ KINDS = ('cell', 'cell', 'pmap', 'plist', 'eager')
 
 class Boom(Exception):
     """Raised by the failing participant."""
+
+
+class Unpicklable(persistent.Persistent):
+    """A persistent object whose state cannot be taken."""
+
+    def __getstate__(self):
+        raise TypeError('this object cannot be pickled')
 
 
 class FailingDM:
@@ -253,6 +261,31 @@ class Machine:
             if p.status in (COMMITTED, ADDED, SAVED):
                 self.joined = True
             self.trace.append('new')
+
+    def op_spfail(self):
+        """A savepoint that fails half-way: a new object under the root
+        whose own child cannot be pickled (the object is written to the
+        savepoint's storage, then the child raises); then abort."""
+        A = self.A
+        self.op_new(0, 'cell', False)
+        so = self.sos[-1]
+        so.obj.poison = Unpicklable()
+        try:
+            A.tm.savepoint()
+        except Exception:           # noqa: B902
+            pass
+        else:
+            self.flag('savepoint-raises', 'a savepoint over an object '
+                      'that cannot be pickled succeeded')
+        # (the failed savepoint has already aborted the connection's part
+        # of the transaction)
+        so.obj.__dict__.pop('poison', None)
+        A.abort()
+        self.after_failure()
+        self.storage_unchanged('after failed savepoint and abort')
+        self.check_values('after failed savepoint and abort')
+        self.check_tmpstore('after failed savepoint and abort')
+        self.trace.append('spfail')
 
     def op_attach(self, parent, child):
         p = self.sos[parent % len(self.sos)]
@@ -717,6 +750,12 @@ def gen_program(r, n, savepoints=False, kind='file'):
             ops.append(['close'])
         else:
             ops.append(['observe'])
+    if savepoints and r.random() < 0.25:
+        # a savepoint that fails half-way (after at least one that worked,
+        # as the implicit savepoint of a commit would)
+        at = r.randrange(len(ops) + 1)
+        ops[at:at] = [['sp'], ['spfail']] if r.random() < 0.7 \
+            else [['spfail']]
     ops.append(['commit'])
     ops.append(['observe'])
     return ops
@@ -747,6 +786,8 @@ def run_program(case, savepoints=False):
                 m.op_observe()
             elif k == 'sp':
                 m.op_savepoint()
+            elif k == 'spfail':
+                m.op_spfail()
             elif k == 'rb':
                 m.op_rollback(op[1])
             if len(m.viol) >= 8 or m.stop:
